@@ -306,3 +306,166 @@ Proof.
 Qed.
 
 End ParserFacts.
+
+(* ------------------------------------------------------------------------------------------ *)
+(** * NewReplacerData: rules = compiled items, and they fit the matches of the Regexp           *)
+
+Definition items_of_node (nd : rnode) : list item :=
+  if n_t nd =? rg_NtMulti then map ILit (n_str nd)
+  else if n_t nd =? rg_NtOne then [ILit (n_ch nd)]
+  else [IRef (n_m nd)].
+Definition items_of_nodes (l : list rnode) : list item := flat_map items_of_node l.
+
+Definition group_num_ok (env : penv) (m : Z) : Prop :=
+  match pe_caps env with
+  | None => m < pe_capsize env
+  | Some l => zlist_assoc m l <> None
+  end.
+Definition ref_ok (env : penv) (m : Z) : Prop := (-4 <= m /\ m < 0) \/ (0 <= m /\ group_num_ok env m).
+Definition node_wf (env : penv) (nd : rnode) : Prop :=
+  n_t nd = rg_NtOne \/ n_t nd = rg_NtMulti \/ (n_t nd = rg_NtRef /\ ref_ok env (n_m nd)).
+
+Lemma zlist_assoc_In {B} (k : Z) (l : list (Z * B)) (v : B) : zlist_assoc k l = Some v -> In (k, v) l.
+Proof.
+  induction l as [|[k' v'] l IH]; cbn [zlist_assoc]; [discriminate|].
+  destruct (k =? k') eqn:E; [|intros H; right; apply IH; exact H].
+  intros H; inversion H; subst. left. f_equal. lia.
+Qed.
+
+Lemma zlist_eqb_eq (a b : list Z) : zlist_eqb a b = true -> a = b.
+Proof.
+  revert b. induction a as [|x a IH]; intros [|y b]; cbn [zlist_eqb]; try discriminate; [reflexivity|].
+  intros H. apply andb_prop in H as (H1 & H2). f_equal; [lia|apply IH; exact H2].
+Qed.
+
+Lemma name_assoc_In {B} (k : list Z) (l : list (list Z * B)) (v : B) : name_assoc k l = Some v -> In (k, v) l.
+Proof.
+  induction l as [|[k' v'] l IH]; cbn [name_assoc]; [discriminate|].
+  destruct (zlist_eqb k k') eqn:E; [|intros H; right; apply IH; exact H].
+  intros H; inversion H; subst. left. f_equal. symmetry. apply zlist_eqb_eq. exact E.
+Qed.
+
+Lemma compile_items_lits (env : penv) (s : list Z) (rest : list item) (sb : list Z) :
+  compile_items env (map ILit s ++ rest) sb = compile_items env rest (sb ++ s).
+Proof.
+  revert sb. induction s as [|c s IH]; intros sb; cbn [map app compile_items].
+  - rewrite app_nil_r. reflexivity.
+  - rewrite IH. rewrite <- app_assoc. reflexivity.
+Qed.
+
+Lemma tok_of_rule_mono (strings more : list (list Z)) (r : Z) (t : rtok) :
+  tok_of_rule strings r = Some t -> tok_of_rule (strings ++ more) r = Some t.
+Proof.
+  unfold tok_of_rule. destruct (0 <=? r) eqn:E; [|auto].
+  destruct (znth strings r) eqn:N; [|discriminate]. intros H.
+  assert (r < zlen strings) as Hlt.
+  { unfold znth in N. destruct (r <? 0); [discriminate|].
+    assert (nth_error strings (Z.to_nat r) <> None) as Hn by congruence.
+    apply nth_error_Some in Hn. unfold zlen. lia. }
+  rewrite znth_app_l by exact Hlt. rewrite N. exact H.
+Qed.
+
+Lemma toks_of_rules_mono (strings more : list (list Z)) (rules : list Z) (toks : list rtok) :
+  toks_of_rules strings rules = Some toks -> toks_of_rules (strings ++ more) rules = Some toks.
+Proof.
+  revert toks. induction rules as [|r rules IH]; intros toks H; [exact H|].
+  cbn [toks_of_rules] in *. destruct (tok_of_rule strings r) eqn:Er; [|discriminate].
+  destruct (toks_of_rules strings rules) eqn:E; [|discriminate].
+  rewrite (tok_of_rule_mono _ more _ _ Er). rewrite (IH _ eq_refl). exact H.
+Qed.
+
+Lemma rule_ok_mono (a b n r : Z) : a <= b -> rule_ok a n r -> rule_ok b n r.
+Proof. intros H (H1 & H2). split; [intros; specialize (H1 ltac:(assumption)); lia|exact H2]. Qed.
+
+Lemma flush_spec (sb : list Z) (strings : list (list Z)) (rules : list Z) (toks0 : list rtok) (n : Z) :
+  toks_of_rules strings rules = Some toks0 -> Forall (rule_ok (zlen strings) n) rules ->
+  let '(s, r) := flush sb strings rules in
+  toks_of_rules s r = Some (toks0 ++ (if nonempty sb then [TLit sb] else [])) /\
+  Forall (rule_ok (zlen s) n) r /\ zlen strings <= zlen s.
+Proof.
+  intros Ht Hr. unfold flush. destruct (nonempty sb).
+  - repeat split.
+    + apply toks_of_rules_app; [apply toks_of_rules_mono; exact Ht|].
+      cbn [toks_of_rules]. unfold tok_of_rule. pose proof (zlen_nonneg strings).
+      destruct (0 <=? zlen strings) eqn:E; [|lia]. rewrite znth_app_r0. reflexivity.
+    + apply Forall_app. split.
+      * eapply Forall_impl; [|exact Hr]. intros r. apply rule_ok_mono. rewrite zlen_app. change (zlen [sb]) with 1. lia.
+      * constructor; [|constructor]. split; [intros _; rewrite zlen_app; change (zlen [sb]) with 1; lia|].
+        pose proof (zlen_nonneg strings). lia.
+    + rewrite zlen_app. change (zlen [sb]) with 1. lia.
+  - rewrite app_nil_r. repeat split; try assumption. lia.
+Qed.
+
+Section BuildRules.
+Variable env : penv.
+Variable n : Z.
+Hypothesis Henv : env_ok env n.
+
+Lemma slot_of_ok (m : Z) :
+  ref_ok env m -> -4 <= slot_of env m /\ slot_of env m < n /\ (m < 0 -> slot_of env m = m).
+Proof.
+  destruct Henv as (Hn & Hcaps & _). unfold slot_of, caps_nonempty, caps_lookup, ref_ok, group_num_ok.
+  intros [(H1 & H2)|(H1 & H2)].
+  - destruct (0 <=? m) eqn:E; [lia|]. rewrite andb_false_r. repeat split; lia.
+  - destruct (pe_caps env) as [l|].
+    + destruct Hcaps as (HF & H0). destruct l as [|kv l]; [discriminate|].
+      destruct (0 <=? m) eqn:E; [|lia]. cbn [andb].
+      destruct (zlist_assoc m (kv :: l)) as [v|] eqn:Ea; [|contradiction].
+      apply zlist_assoc_In in Ea. rewrite Forall_forall in HF. specialize (HF _ Ea). cbn [snd] in HF.
+      repeat split; lia.
+    + cbn [andb]. repeat split; lia.
+Qed.
+
+Lemma tok_of_rule_ref (strings : list (list Z)) (slot : Z) :
+  -4 <= slot -> tok_of_rule strings (-5 - slot) = Some (ref_tok slot).
+Proof.
+  intros H. unfold tok_of_rule, ref_tok.
+  destruct (0 <=? -5 - slot) eqn:E0; [lia|].
+  destruct (slot =? -1) eqn:E1.
+  { assert (slot = -1) as -> by lia. reflexivity. }
+  destruct (slot =? -2) eqn:E2.
+  { assert (slot = -2) as -> by lia. reflexivity. }
+  destruct (slot =? -3) eqn:E3.
+  { assert (slot = -3) as -> by lia. reflexivity. }
+  destruct (slot =? -4) eqn:E4.
+  { assert (slot = -4) as -> by lia. reflexivity. }
+  destruct (-5 - slot =? -1) eqn:F1; [lia|]. destruct (-5 - slot =? -2) eqn:F2; [lia|].
+  destruct (-5 - slot =? -3) eqn:F3; [lia|]. destruct (-5 - slot =? -4) eqn:F4; [lia|].
+  f_equal. f_equal. lia.
+Qed.
+
+Lemma build_rules_spec (children : list rnode) :
+  forall (sb : list Z) (strings : list (list Z)) (rules : list Z) (toks0 : list rtok),
+    Forall (node_wf env) children ->
+    toks_of_rules strings rules = Some toks0 -> Forall (rule_ok (zlen strings) n) rules ->
+    exists d, build_rules env children sb strings rules = Ok d /\
+              toks_of d = Some (toks0 ++ compile_items env (items_of_nodes children) sb) /\
+              data_ok d n.
+Proof.
+  induction children as [|c rest IH]; intros sb strings rules toks0 HF Ht Hr; cbn [build_rules].
+  - pose proof (flush_spec sb strings rules toks0 n Ht Hr) as Hfl.
+    destruct (flush sb strings rules) as [s r]. destruct Hfl as (H1 & H2 & _).
+    exists (mkRD s r). split; [reflexivity|]. split; [exact H1|exact H2].
+  - inversion HF as [|? ? Hc HF']; subst. unfold items_of_nodes. cbn [flat_map]. fold (items_of_nodes rest).
+    unfold items_of_node.
+    destruct (n_t c =? rg_NtMulti) eqn:E1.
+    { rewrite compile_items_lits. apply IH; assumption. }
+    destruct (n_t c =? rg_NtOne) eqn:E2.
+    { cbn [app compile_items]. apply IH; assumption. }
+    destruct Hc as [Hc|[Hc|(Hc & Hok)]]; [lia|lia|].
+    destruct (n_t c =? rg_NtRef) eqn:E3; [|lia].
+    pose proof (flush_spec sb strings rules toks0 n Ht Hr) as Hfl.
+    destruct (flush sb strings rules) as [s r]. destruct Hfl as (H1 & H2 & H3).
+    fold (slot_of env (n_m c)). destruct (slot_of_ok _ Hok) as (Hs1 & Hs2 & Hs3).
+    unfold s_replaceSpecials. change (- (4) - 1 - slot_of env (n_m c)) with (-4 - 1 - slot_of env (n_m c)).
+    replace (-4 - 1 - slot_of env (n_m c)) with (-5 - slot_of env (n_m c)) by lia.
+    destruct (IH [] s (r ++ [-5 - slot_of env (n_m c)])
+                 ((toks0 ++ (if nonempty sb then [TLit sb] else [])) ++ [ref_tok (slot_of env (n_m c))]) HF')
+      as (d & Hd1 & Hd2 & Hd3).
+    + apply toks_of_rules_app; [exact H1|]. cbn [toks_of_rules]. rewrite tok_of_rule_ref by lia. reflexivity.
+    + apply Forall_app. split; [exact H2|]. constructor; [|constructor]. split; lia.
+    + exists d. split; [exact Hd1|]. split; [|exact Hd3]. rewrite Hd2. cbn [app compile_items].
+      rewrite <- !app_assoc. reflexivity.
+Qed.
+
+End BuildRules.
